@@ -7,7 +7,7 @@ from fractions import Fraction
 from typing import Dict, List, Optional, Tuple
 
 from ..core import AnalysisError, FuncNode, Program, RuleResult, dotted, func_params, kwarg, short, walk_no_nested
-from ..flow import guards, loops_around, reaching, Opaque
+from ..flow import conditions, guards, loops_around, reaching, Opaque
 from ..relmodel import FnEval, RelEval, TreeModel, Undefined, number, run_block
 from ..resolve import method_def
 from ..sym import Normaliser, Poly
@@ -440,7 +440,7 @@ def rmq_windows(prog: Program) -> RuleResult:
     length_names = set(length_names) | {"__length__"}
     stray = None
     for x in refusals:
-        gs = [(_LenOfData().visit(_copy.deepcopy(t)), pol) for t, pol in guards(call, x)]
+        gs = [(_LenOfData().visit(_copy.deepcopy(t)), pol) for t, pol in conditions(call, x)]
         for length in range(1, 7):
             for lo in range(0, length + 1):
                 for hi in range(0, length + 1):
